@@ -42,7 +42,8 @@ def cells():
                     [('Tree', 'up', ['a'], 'down', ['b']), ('Tree', 'up', ['b'], 'down', ['a']), ('Own', 'owner', ['d'], 'owned', ['a', 'b'])],
                     [('b', ['s1', 't'])]))
     shapes = families.inh_shapes(False)
-    for i in (7, 33, 80, 121, 160):
+    chain = [i for i, sh in enumerate(shapes) if sh == {'Rr': 'none', 'Mm': 'ext', 'L1': 'ext', 'L2': 'ext'}]
+    for i in [7, 33, 80, 121, 160] + chain:
         for kind in ('or', 'defense'):
             sp = families.inh_lang(shapes[i], kind=kind, ttc='alternate' if kind == 'defense' else None)
             out.append((f'INH{i}/{kind}', sp, [('r', 'Rr', {}), ('m', 'Mm', {}), ('l1', 'L1', {}), ('l2', 'L2', {})],
@@ -119,6 +120,18 @@ def run_cell(d, cell):
         out['problems'].append('language specification changed by generation/analysis')
     if json.dumps(model._to_dict(), default=repr) != before_model:
         out['problems'].append('model serialisation changed by generation/analysis')
+    # interleaved: both graphs are built from the one model first, attackers attached afterwards in the
+    # opposite order; each must still equal the graph built alone
+    ga, gb = AttackGraph(lg, model), AttackGraph(lg, model)
+    for k, g in (('b', gb), ('a', ga)):
+        g.attach_attackers()
+        calculate_viability_and_necessity(g)
+        out['hashes'][f'api_interleaved_{k}#0'] = sha(g._to_dict())
+    for g in (ga, gb):
+        own = {id(n) for n in g.nodes}
+        for att in g.attackers:
+            if any(id(n) not in own for n in list(att.entry_points) + list(att.reached_attack_steps)):
+                out['problems'].append('two graphs built from one model share node objects (through an attacker)')
     ids0 = {id(n) for n in graphs[0].nodes}
     if any(id(n) in ids0 for n in graphs[1].nodes):
         out['problems'].append('two graphs built from one model share node objects')
